@@ -205,14 +205,20 @@ static void set_taint(args_t* a, int on)
 		(void)VALGRIND_MAKE_MEM_DEFINED(a->v, sizeof a->v);
 }
 
-static void print_result(args_t* a, char kind, long long ri, unsigned long long ru)
+/* trunc0 != 0: only the first trunc0 octets of buffer 0 are printed (result of a reduction) */
+static void print_result(args_t* a, char kind, long long ri, unsigned long long ru, size_t trunc0)
 {
 	int i;
 	if (kind == 'i') printf("%lld", ri);
 	else if (kind == 'u') printf("%llu", ru);
 	else printf("-");
 	for (i = 0; i < a->nb; ++i)
-		if (a->b[i].show) { fputc(' ', stdout); put_hex(a->b[i].p, a->b[i].len); }
+		if (a->b[i].show)
+		{
+			size_t l = a->b[i].len;
+			if (i == 0 && trunc0 && trunc0 < l) l = trunc0;
+			fputc(' ', stdout); put_hex(a->b[i].p, l);
+		}
 }
 
 static void do_ir(int argc, char** argv)
@@ -225,7 +231,7 @@ static void do_ir(int argc, char** argv)
 	set_taint(&a, 0);
 	(void)VALGRIND_MAKE_MEM_DEFINED(&ri, sizeof ri);
 	(void)VALGRIND_MAKE_MEM_DEFINED(&ru, sizeof ru);
-	print_result(&a, kind, ri, ru);
+	print_result(&a, kind, ri, ru, 0);
 	free_args(&a);
 }
 
@@ -234,13 +240,15 @@ static void do_sf(int argc, char** argv)
 	args_t a, c;
 	long long ri = 0; unsigned long long ru = 0; char kind = 'v';
 	if (argc < 1 || !parse_args(&a, argc - 1, argv + 1)) { printf("bad-op"); return; }
+	size_t tr = 0;
 	clone_args(&c, &a);
+	if (!strncmp(argv[0], "zzRed", 5) && a.nv > 2) tr = (size_t)a.v[2] * sizeof(word);
 	if (!call_one(argv[0], 0, &a, &ri, &ru, &kind)) { printf("bad-op"); return; }
-	print_result(&a, kind, ri, ru);
+	print_result(&a, kind, ri, ru, tr);
 	printf(" | ");
 	ri = 0, ru = 0;
 	if (!call_one(argv[0], 1, &c, &ri, &ru, &kind)) { printf("bad-op"); return; }
-	print_result(&c, kind, ri, ru);
+	print_result(&c, kind, ri, ru, tr);
 	free_clone(&c);
 	free_args(&a);
 }
@@ -287,18 +295,26 @@ static void do_cmp(int argc, char** argv)
 		else if (!strcmp(f, "hexEq")) printf("%d", ED2(hexEq)(A, h) ? 1 : 0);
 		else printf("%d", ED2(hexEqRev)(A, h) ? 1 : 0);
 	}
-	else if ((!strcmp(f, "wwEq") || !strcmp(f, "wwCmp") || !strcmp(f, "wwCmp2")) && argc == 4)
+	/* ww family: `wwEq` ... on 64-bit words, `wwEq32` ... on 32-bit words */
+#if (B_PER_W == 64)
+#define WWN(name) name
+#else
+#define WWN(name) name "32"
+#endif
+#define OW sizeof(word)
+	else if (!strncmp(f, "ww", 2) && (strcmp(f + strlen(f) - 2, "32") == 0) == (B_PER_W == 64)) printf("other-word-size");
+	else if ((!strcmp(f, WWN("wwEq")) || !strcmp(f, WWN("wwCmp")) || !strcmp(f, WWN("wwCmp2"))) && argc == 4)
 	{
 		B = hex_arg(argv[3], &lb);
-		if (la % 8 || lb % 8 || (strcmp(f, "wwCmp2") && la != lb)) printf("bad-op");
-		else if (!strcmp(f, "wwEq")) printf("%d", ED2(wwEq)((word*)A, (word*)B, la / 8) ? 1 : 0);
-		else if (!strcmp(f, "wwCmp")) printf("%d", ED2(wwCmp)((word*)A, (word*)B, la / 8));
-		else printf("%d", ED2(wwCmp2)((word*)A, la / 8, (word*)B, lb / 8));
+		if (la % OW || lb % OW || (strcmp(f, WWN("wwCmp2")) && la != lb)) printf("bad-op");
+		else if (!strcmp(f, WWN("wwEq"))) printf("%d", ED2(wwEq)((word*)A, (word*)B, la / OW) ? 1 : 0);
+		else if (!strcmp(f, WWN("wwCmp"))) printf("%d", ED2(wwCmp)((word*)A, (word*)B, la / OW));
+		else printf("%d", ED2(wwCmp2)((word*)A, la / OW, (word*)B, lb / OW));
 	}
-	else if (!strcmp(f, "wwIsZero") && argc == 3 && la % 8 == 0) printf("%d", ED2(wwIsZero)((word*)A, la / 8) ? 1 : 0);
-	else if (!strcmp(f, "wwCmpW") && argc == 4 && la % 8 == 0) printf("%d", ED2(wwCmpW)((word*)A, la / 8, (word)u_arg(argv[3])));
-	else if (!strcmp(f, "wwIsW") && argc == 4 && la % 8 == 0) printf("%d", ED2(wwIsW)((word*)A, la / 8, (word)u_arg(argv[3])) ? 1 : 0);
-	else if (!strcmp(f, "wwIsRepW") && argc == 4 && la % 8 == 0) printf("%d", ED2(wwIsRepW)((word*)A, la / 8, (word)u_arg(argv[3])) ? 1 : 0);
+	else if (!strcmp(f, WWN("wwIsZero")) && argc == 3 && la % OW == 0) printf("%d", ED2(wwIsZero)((word*)A, la / OW) ? 1 : 0);
+	else if (!strcmp(f, WWN("wwCmpW")) && argc == 4 && la % OW == 0) printf("%d", ED2(wwCmpW)((word*)A, la / OW, (word)u_arg(argv[3])));
+	else if (!strcmp(f, WWN("wwIsW")) && argc == 4 && la % OW == 0) printf("%d", ED2(wwIsW)((word*)A, la / OW, (word)u_arg(argv[3])) ? 1 : 0);
+	else if (!strcmp(f, WWN("wwIsRepW")) && argc == 4 && la % OW == 0) printf("%d", ED2(wwIsRepW)((word*)A, la / OW, (word)u_arg(argv[3])) ? 1 : 0);
 	else printf("bad-op");
 	hex_free(A, la);
 	if (B) hex_free(B, lb);
@@ -467,10 +483,19 @@ static void handle(int argc, char** argv)
 		fprintf(stderr, "\n");
 		fflush(stderr);
 	}
-	if (!strcmp(argv[0], "ir") || !strcmp(argv[0], "trace")) do_ir(argc - 1, argv + 1);
-	else if (!strcmp(argv[0], "sf")) do_sf(argc - 1, argv + 1);
+	/* word-size specific op streams carry the word size in the op name */
+#if (B_PER_W == 64)
+#define OPW(name) name
+#define OPW_OTHER(s) (!strcmp(s, "ir32") || !strcmp(s, "sf32") || !strcmp(s, "trace32"))
+#else
+#define OPW(name) name "32"
+#define OPW_OTHER(s) (!strcmp(s, "ir") || !strcmp(s, "sf") || !strcmp(s, "trace"))
+#endif
+	if (OPW_OTHER(argv[0])) printf("other-word-size");
+	else if (!strcmp(argv[0], OPW("ir")) || !strcmp(argv[0], OPW("trace"))) do_ir(argc - 1, argv + 1);
+	else if (!strcmp(argv[0], OPW("sf"))) do_sf(argc - 1, argv + 1);
 	else if (!strcmp(argv[0], "tag")) do_verify(0, argc - 1, argv + 1);
-	else if (!strcmp(argv[0], "stepv")) do_verify(1, argc - 1, argv + 1);
+	else if (!strcmp(argv[0], "stepv") || !strcmp(argv[0], "stepv32")) do_verify(1, argc - 1, argv + 1);
 	else if (!strcmp(argv[0], "kwp")) do_kwp(0, argc - 1, argv + 1);
 	else if (!strcmp(argv[0], "kwpw")) do_kwp(1, argc - 1, argv + 1);
 	else if (!strcmp(argv[0], "prim")) do_prim(argc - 1, argv + 1);
